@@ -13,16 +13,16 @@ CHECKS = {
    "Pairs of parseable range texts are joined by `||` and by blanks; the joined range must answer exactly as the union / (bounds-)intersection law of the statement prescribes at every probe, an empty conjunction must not widen, and every permutation answers identically." + EXPL,
    "in-bounds membership of the operands is read from their printed interval form; sides that do not parse alone are discarded (counted)", "6/C02"),
  "C03": C("property-based differential + metamorphic testing focused on prerelease probes: npm gate from the AST, build-metadata invariance, release==bounds, resolver view",
-   "Ranges dense in prerelease-tagged comparators are probed with prereleases on the same / neighbouring / unrelated tuples and tags before/between/after; answers must equal the npm gate computed from the AST, be invariant under build metadata on either side, leave releases untouched, and max/min_satisfying must never surface a gated-out prerelease." + EXPL,
+   "Ranges dense in prerelease-tagged comparators (and, in a second campaign, results of intersect/difference trees, whose satisfies() must follow the printed bounds and the gate) are probed with prereleases on the same / neighbouring / unrelated tuples and tags before/between/after; answers must equal the npm gate computed from the AST, be invariant under build metadata on either side, leave releases untouched, and max/min_satisfying must never surface a gated-out prerelease." + EXPL,
    "same oracle as C01; generator health (both gate outcomes and both opt-in sides >= 5%) is enforced as exit 2", "6/C03"),
  "C04": C("property-based testing: exhaustive small-scope pairs/triples + proptest related-version lists against a SemVer section-11 model comparator and the order laws",
-   "All 831,744 ordered pairs of a 912-version small scope, all triples of a stratified subset, and random lists of related versions are compared with an independent SemVer precedence model (golden-validated against node) and checked for the total-order, Eq/Hash and sort/min/max laws." + EXPL,
+   "All 831,744 ordered pairs of a 912-version small scope, all triples of a stratified subset, all ordered pairs of a bit-boundary scope (fields from {0,1,2^k-1,2^k,2^k+1}, k=1..50) and random lists of related versions (struct literals and parsed spellings, incl. zero-padded numeric identifiers; HashSet/BTreeSet/HashMap built from the list must have one entry per precedence class) are compared with an independent SemVer precedence model (golden-validated against node) and checked for the total-order, Eq/Hash and sort/min/max laws." + EXPL,
    "trusts the model comparator (40 lines, written from the SemVer text) and std's sort/Hash plumbing; numeric identifiers < 2^64", "6/C04"),
  "C05": C("exhaustive short-string enumeration + single-edit mutation + proptest, against an independent three-class recogniser (must accept / may accept / must reject) with field denotation",
-   "Every string up to length 7 (8 thorough) over the version alphabet, every single edit of generated canonical versions over a 58-character alphabet, a length/integer limit family, random spelled versions and token soup are classified by an independent recogniser; Version::parse, FromStr and serde must accept every canonical string with exactly the denoted fields and reject everything outside the canonical+loose language." + EXPL,
+   "Every string up to length 7 (8 thorough) over the version alphabet, every single edit of generated canonical versions over a 58-character alphabet, a length/integer limit family, random spelled versions, token soup and primed pairs (a sibling spelling is parsed first: the verdict may not depend on the call history) are classified by an independent recogniser; Version::parse, FromStr and serde must accept every canonical string with exactly the denoted fields and reject everything outside the canonical+loose language." + EXPL,
    "acceptance of the documented loose spellings (blanks, v prefix, hyphenless prerelease) is left open (MAY class), as the statement does", "6/C05"),
  "C06": C("fuzz-style robustness search: proptest input pools + exhaustive short strings through the whole public API under catch_unwind with overflow checks and debug assertions; CPU-time scaling measurement; libFuzzer+ASan target in the thorough tier",
-   "Pools of adversarial strings go through both parsers, every error accessor/diagnostic, every unary operation and all binary operations on all ordered pairs (incl. self) and on their results to depth 3, in a build with arithmetic-overflow checks and debug assertions; any panic is a violation. A watchdog reports a hang as inconclusive; CPU-time ratios t(8n)/t(n) of 16 adversarial input families decide the linear-time clause." + EXPL,
+   "Long inputs and operands with thousands of alternatives run in supervised child processes on a 256 KiB stack (a child killed by a signal - stack overflow, abort - is a violation). Pools of adversarial strings go through both parsers, every error accessor/diagnostic, every unary operation and all binary operations on all ordered pairs (incl. self) and on their results to depth 3, in a build with arithmetic-overflow checks and debug assertions; any panic is a violation. A watchdog reports a hang as inconclusive; CPU-time ratios t(8n)/t(n) of 16 adversarial input families decide the linear-time clause." + EXPL,
    "the time clause is attacked only through fixed adversarial families (an input-specific super-linear path outside them would be missed); binary operations are O(|A||B|) by nature and operands are capped at 64 alternatives", "6/C06"),
  "C07": C("property-based testing with a pointwise set-semantics oracle on interval models read from Display; exact emptiness computation for None",
    "Pairs of Range values (leaves over an adjacent-version pool, or results of earlier operations) are intersected; membership in bounds, satisfies() for releases and the two prerelease implications are compared at ~40 probes per bound with the boolean combination of the operands' own answers; None requires an exactly empty overlap; commutativity and idempotence are checked pointwise." + EXPL,
@@ -40,13 +40,13 @@ CHECKS = {
    "For ranges from the grammar generator, from algebra results and from the statement's named shapes, min_version() must satisfy the range, no lower candidate may satisfy it, and None requires that no candidate satisfies; candidates are the exact least satisfying version of each interval (discrete-order argument) plus ~40 probes per bound." + EXPL,
    "only the crate's own satisfies() decides a witness", "6/C11"),
  "C12": C("property-based round-trip testing over generated spellings and struct literals, incl. serde",
-   "Versions parsed from generated spellings (all loose forms, values at MAX_SAFE_INTEGER, lengths at MAX_LENGTH) or built from canonical identifiers are printed and re-parsed: five-field equality, print fixed point, serde JSON == quoted print and round-trips." + EXPL,
+   "Versions parsed from generated spellings (all loose forms, values at MAX_SAFE_INTEGER, lengths at MAX_LENGTH) or built from canonical identifiers are printed and re-parsed: five-field equality, print fixed point, serde JSON == quoted print and round-trips through from_str, from_value, from_reader and fully escaped text; Display into failing writers and under width/alignment/sign flags must leave the text intact." + EXPL,
    "one known finding (256-byte hyphenless prerelease prints as 257 bytes) is excluded by signature", "6/C12"),
  "C13": C("property-based round-trip testing over parsed ranges and intersect/difference expression trees, pointwise equivalence + equality + print fixed point + serde",
-   "Ranges from Range::parse and from compositions of set operations are printed and re-parsed: satisfies() and bounds membership unchanged at ~40 probes per bound, == for parsed ranges, second print stable, serde round trip." + EXPL,
+   "Ranges from Range::parse and from compositions of set operations are printed and re-parsed: satisfies() and bounds membership unchanged at ~40 probes per bound, == (and equal hashes, equal clones) for parsed ranges, second print stable, serde round trip through four front ends, Display robust against failing writers and format flags." + EXPL,
    "one known finding (a desugared bound component MAX_SAFE_INTEGER+1 prints but does not re-parse) is excluded by signature on the printed text", "6/C13"),
  "C14": C("property-based testing with a validity predicate over the output (element of the slice by pointer identity, satisfies, extreme by the model order) and permutation invariance",
-   "For generated ranges and lists drawn at and around the bounds (duplicates, build-only differences, gated-out prereleases above the best release), max/min_satisfying must return None exactly when nothing satisfies, otherwise a pointer into the slice that satisfies and is extreme by an independent SemVer comparison, unchanged under permutations up to precedence-equal elements." + EXPL,
+   "For generated ranges (parsed, or results of set operations, or Range::any()) and lists of 0..12 or 60..140 versions drawn at and around the bounds (incl. versions above MAX.MAX.MAX) (duplicates, build-only differences, gated-out prereleases above the best release), max/min_satisfying must return None exactly when nothing satisfies, otherwise a pointer into the slice that satisfies and is extreme by an independent SemVer comparison, unchanged under permutations up to precedence-equal elements." + EXPL,
    "relative to the crate's own satisfies(), as the statement is", "6/C14"),
  "C15": C("property-based testing over expression trees: boolean evaluation from the leaves' interval models as oracle for 15 composite trees per case (all listed identities at once), re-parse and re-use of every result",
    "Triples of expression trees are combined into 15 composites of depth <= 3; membership in the bounds of every crate-computed value (and satisfies() for releases) must equal the boolean evaluation of the tree from the leaves' models at probes around every bound in the trees; every result must print, re-parse pointwise-equal and work as an operand again." + EXPL,
@@ -58,7 +58,7 @@ CHECKS = {
    "Every Err of Version::parse / Range::parse over the C05 domains plus garbage-only ranges and over-long multi-line inputs must carry the original input, a char-boundary offset, the recomputed line/column, renderable miette diagnostics, and the kind the statement prescribes (MaxLengthError, MaxIntError(value)@component, ParseIntError, NoValidRanges)." + EXPL,
    "column unit (bytes or chars) left open; miette's fancy handler cannot be built offline", "6/C17"),
  "C18": C("exhaustive u8/i8 tuples + boundary cross product + proptest across all ten integer types, differential against struct fields, Display and Version::parse",
-   "Value tuples are pushed through every integer type that can hold them; fields must equal the numbers, Display must be a.b.c[-d], Version::parse of that text must give the same five fields." + EXPL,
+   "Value tuples (exhaustive u8/i8, every triple over {0,1,2,..,2^k-1,2^k,2^k+1,MAX-1,MAX}, decimal-structured values d*10^k / 10^k+-1 / m*10^k in every position, random incl. log-uniform) are pushed through every integer type that can hold them; fields must equal the numbers, Display must be a.b.c[-d], Version::parse of that text must give the same five fields." + EXPL,
    "negative values are outside the property", "6/C18"),
 }
 NOT_BUILT = "check not built yet (work in progress; the design claims it)"
